@@ -93,6 +93,12 @@ EnvStep ==
         \/ \E n \in Node :    \* the connection to node n fails (C07)
              /\ Family = "C07"
              /\ NodeRespond(n, TRUE, 0) /\ hist' = Append(hist, [a |-> "t", n |-> n, e |-> TRUE, v |-> 0])
+        \/ \E n \in Node :    \* node n, whose connection had failed, comes back, is reconnected and
+                               \* fails again while the call still waits for others (C07): no step of the call
+             /\ Family = "C07" /\ sc.fk = "crash"
+             /\ \E i \in DOMAIN hist : hist[i].a = "t" /\ hist[i].n = n
+             /\ \A i \in DOMAIN hist : hist[i].a # "flap"
+             /\ UNCHANGED vars /\ hist' = Append(hist, [a |-> "flap", n |-> n, e |-> FALSE, v |-> 0])
         \/ \E c \in (IF Family = "C02" THEN {"canceled", "deadline"} ELSE {"canceled"}) :
              CtxEnd(c) /\ hist' = Append(hist, [a |-> c, n |-> 0, e |-> FALSE, v |-> 0])
   \/ /\ pc = "init" /\ Family \in {"C02", "C06"}
